@@ -104,7 +104,7 @@ func verifBoot(engine, lb, profile string, eps []verifEndpointOpt, mod func(*con
 		cfg.Discovery.Static.Endpoints = append(cfg.Discovery.Static.Endpoints, config.EndpointConfig{
 			Name: b.Name, URL: b.URL() + o.BasePath, Type: typ, Priority: &p,
 			HealthCheckURL: "/health", ModelURL: "/v1/models",
-			CheckInterval: 5 * time.Second, CheckTimeout: 1 * time.Second, PreservePath: o.PreservePath,
+			CheckInterval: 30 * time.Minute, CheckTimeout: 3 * time.Second, PreservePath: o.PreservePath, // only forced rounds (healthRound) probe: the periodic loop must not interfere on a slow machine
 		})
 		b.HealthPath = o.BasePathJoin("/health")
 		b.ModelsPath = o.BasePathJoin("/v1/models")
